@@ -85,6 +85,8 @@ def _bn_events(universe, nh):
                 evs.append(["do", h, x, False])
             for y in universe:
                 evs.append(["add_edge", h, x, y])
+                if h == 0:
+                    evs.append(["add_edge_w", h, x, y])
         evs.append(["random_cpds", h, True])
         if nh == 1:
             evs.append(["random_cpds", h, False])
@@ -115,6 +117,9 @@ def _bn_apply(world, ev):
         m.add_edge(ev[2], ev[3])
     elif op == "add_edges_from":
         m.add_edges_from([tuple(e) for e in ev[2]])
+    elif op == "add_edge_w":
+        # the same single edge through the bulk API with its optional weights argument
+        m.add_edges_from([(ev[2], ev[3])], weights=[0.5])
     elif op == "do":
         r = m.do([ev[2]], inplace=ev[3])
         if not ev[3]:
@@ -242,7 +247,7 @@ def _ref_step(rw, ev):
         if op == "add_latent":
             r.latents.add(ev[2])
         return "accept"
-    if op == "add_edge":
+    if op in ("add_edge", "add_edge_w"):
         u, v = ev[2], ev[3]
         if u == v or (u in r.nodes and v in r.nodes and r.has_path(v, u)):
             return "reject"
